@@ -35,3 +35,40 @@ Proof.
     + inversion He; subst. split; [reflexivity|eexists; reflexivity].
   - inversion He; subst. split; [reflexivity|eexists; reflexivity].
 Qed.
+
+(* ---- any number of frames ---- *)
+Lemma options_same_first (f g : frame) (d : bool) r tl tl' :
+  f_rows f = r :: tl -> f_rows g = r :: tl' -> options_from_frame f d = options_from_frame g d.
+Proof. intros Hf Hg. unfold options_from_frame, first_options. rewrite Hf, Hg. reflexivity. Qed.
+
+Theorem invalid_bytes_rejected (f : frame) (rest : list frame) (i : nat) (c : vclass) (evs : list event) (grouped : bool) :
+  f_rows f <> [] -> run_frames (f :: rest) = Invalid i c evs -> catalogued c = true ->
+  Forall wf_frame (f :: rest) -> Forall small (f :: rest) ->
+  let r := parse_stream Generic grouped false (write_delimited (f :: rest)) in
+  flat_events r = evs /\ exists e, pr_end r = PRaise e.
+Proof.
+  intros Hne Hrun Hc Hwf Hsmall r. subst r. unfold run_frames in Hrun.
+  assert (Hrows : flat_map f_rows (f :: rest) <> []).
+  { cbn [flat_map]. destruct (f_rows f); [contradiction|discriminate]. }
+  destruct (decoder_rejects _ i c evs (f_meta f) true Hrows Hrun Hc) as [e He].
+  unfold decode_all in He.
+  assert (Hlong : (3 <= length (write_delimited (f :: rest)))%nat) by (apply write_delimited_long; exact Hrows).
+  assert (Hhint : hint (firstn 3 (write_delimited (f :: rest))) = true) by (apply write_delimited_detected; [now right|exact Hlong]).
+  assert (Hread : read_frames (write_delimited (f :: rest)) = (f :: rest, FiEof)).
+  { apply read_frames_delimited_wf. clear -Hwf Hsmall. induction (f :: rest) as [|g gs IH]; [constructor|].
+    inversion Hwf; inversion Hsmall; subst. constructor; [split; assumption|now apply IH]. }
+  unfold parse_stream, parse_stream_h, get_options_and_frames_h. rewrite Hhint, Hread.
+  cbn [skip_empty]. destruct (f_rows f) as [|r0 tl] eqn:Er; [contradiction|]. cbn [is_nil].
+  assert (Hopt : options_from_frame {| f_rows := flat_map f_rows (f :: rest); f_meta := f_meta f |} true = options_from_frame f true).
+  { eapply options_same_first; [|exact Er]. cbn [f_rows flat_map]. rewrite Er. reflexivity. }
+  rewrite Hopt in He.
+  destruct (options_from_frame f true) as [po|e0]; cbn [bind].
+  - cbn [andb]. destruct (route (po_phys po)) as [ak|e1].
+    + destruct (decoder_new po) as [st|e2].
+      * cbv zeta. pose proof (flat_is_rows Generic ak po (f :: rest) st) as Ho. rewrite He in Ho.
+        split; [exact (f_equal fst Ho)|]. cbn [pr_end].
+        assert (Hl : last_err (decode_frames Generic ak po (f :: rest) st) = Some e) by exact (f_equal snd Ho). rewrite Hl. eauto.
+      * inversion He; subst. split; [reflexivity|eexists; reflexivity].
+    + inversion He; subst. split; [reflexivity|eexists; reflexivity].
+  - inversion He; subst. split; [reflexivity|eexists; reflexivity].
+Qed.
